@@ -5,7 +5,7 @@
 //      keys / OpenPGP data are fed to every importer, stream constructor, parser and verifier receive side; each case
 //      runs in a child process (harness/c12_run.hh).  A signal, sanitizer report, abort, CPU-time limit, allocation
 //      limit or a non-standard exception escaping the library is reported as PROPFAIL <target> ...
-// Usage: c12 --tier quick|thorough --seed S [--batch i --nbatch n] [--only target] [--errdir DIR]
+// Usage: c12 --tier quick|thorough --seed S [--jobs J] [--only target,target,...] [--norec] [--errdir DIR]
 //        c12 --one <target> <file>     run one input in-process (replay, valgrind)
 //        c12 --vg                      the valgrind subset in-process (paths where libgmp writes caller buffers)
 #include "common.hh"
@@ -643,8 +643,13 @@ int main(int argc, char **argv) {
 	if (!init_libTMCG()) { fprintf(stderr, "init_libTMCG failed\n"); return 2; }
 	// the context is the same for every seed (fixed internal seed): replay files stay valid across seeds
 	reseed_lib(0xC0FFEE12ULL);
-	setup_context();
-	setup_importers(); setup_keys(); setup_ctors(); setup_vtmf_proofs(); setup_game_verifiers(); setup_pgp();
+	if (vg) {   // valgrind subset: only the Rabin keys are needed (keeps the slow instrumented setup short)
+		C.sec[0] = new TMCG_SecretKey("P0", "p@example.org", 768, false); C.nizk = C.sec[0];
+		setup_keys();
+	} else {
+		setup_context();
+		setup_importers(); setup_keys(); setup_ctors(); setup_vtmf_proofs(); setup_game_verifiers(); setup_pgp();
+	}
 	reseed_lib(A.seed ^ 0xABCDEF0123ULL);
 	if (getenv("C12_DUMPVALID")) { for (auto &t : T) for (size_t v = 0; v < t.valid.size(); v++) { std::ofstream f((std::string(getenv("C12_DUMPVALID")) + "/" + t.name + "." + std::to_string(v)).c_str(), std::ios::binary); f.write(t.valid[v].data(), t.valid[v].size()); } return 0; }
 	if (list) { for (auto &t : T) printf("%s %zu %zu\n", t.name.c_str(), t.valid.size(), t.pinned.size()); return 0; }
@@ -662,13 +667,13 @@ int main(int argc, char **argv) {
 		}
 		printf("STAT vg-cases=%zu\n", n); return 0;
 	}
-	if (batch == 0 && !norec && A.only.empty()) records(A.thorough());
+	if (batch == 0 && !norec) records(A.thorough());
 	// ---- case list (identical in every batch process; batch i runs the cases with index % nbatch == i) ----
 	const bool th = A.thorough();
 	std::vector<Case> cases; std::vector<std::string> validkeys;
 	for (size_t k = 0; k < T.size(); k++) {
 		Target &t = T[k];
-		if (!A.only.empty() && t.name != A.only) continue;
+		if (!A.only.empty() && ("," + A.only + ",").find("," + t.name + ",") == std::string::npos) continue;
 		SplitMix64 g(A.seed * 1000003ULL + k * 7919ULL + 5);
 		for (size_t v = 0; v < t.valid.size(); v++) cases.push_back({ k, t.valid[v], "valid" + std::to_string(v), VSEED });
 		for (auto &m : t.pinned) cases.push_back({ k, m.s, "pinned:" + m.d, VSEED });
@@ -689,7 +694,7 @@ int main(int argc, char **argv) {
 		}
 	}
 	fflush(stdout);
-	Limits lim; lim.cpu_s = th ? 180 : 120; lim.wall_s = 1200; lim.group = 32;
+	Limits lim; lim.cpu_s = 300; lim.wall_s = 3000; lim.group = 32;
 #if defined(__SANITIZE_ADDRESS__)
 	lim.as_mb = 0;
 #else
